@@ -30,6 +30,9 @@ EVAL = 'supp/evaluator.py'
 
 
 def run(repo, res):
+    _ns, _np = R.shape_stats(repo)
+    res.extra['e1_shapes_interpreted'] = _ns
+    res.extra['e1_shape_paths_interpreted'] = _np
     # ---- R1 template completeness -------------------------------------------------
     seen = set()
     n = 0
